@@ -16,10 +16,12 @@ import (
 	"errors"
 	"fmt"
 	"net"
+	"runtime"
 	"sort"
 	"strconv"
 	"strings"
 	"sync"
+	"sync/atomic"
 	"time"
 
 	"github.com/go-logr/logr"
@@ -947,8 +949,159 @@ func partB(run *hx.Run) {
 	}
 }
 
+// ---------------------------------------------------------------------------------------------
+// Part R: reset vs. in-flight load, really concurrent (search for a failing history)
+// ---------------------------------------------------------------------------------------------
+//
+// `held`: a load of key A is in flight (its loader is parked by the harness).  A reader of another, cached key B is
+// parked INSIDE the cache's critical section (the injected clock blocks: getLocked calls it with c.mu held).  The loader
+// is released with the OLD value (its flight function queues on c.mu), then reset() is called from another goroutine
+// (it queues on c.mu too - or, if reset clears the map outside its critical section, it has cleared already), then the
+// reader is released.  After reset() has returned: get(A) must miss and a fresh load must fetch again.  On correct code
+// both linearisations (store before / after reset's critical section) give `miss new`; nothing else can be observed.
+//
+// `stress`: many loads of distinct keys race with one reset; afterwards no key may hold a value whose loader started
+// before reset() was even called.
+
+type raceClock struct {
+	armed   atomic.Bool
+	entered chan struct{}
+	release chan struct{}
+}
+
+func (c *raceClock) now() time.Time {
+	if c.armed.CompareAndSwap(true, false) {
+		c.entered <- struct{}{}
+		<-c.release
+	}
+	return time.Now()
+}
+
+func raceHeld(round, variant int) string {
+	clk := &raceClock{entered: make(chan struct{}, 1), release: make(chan struct{})}
+	cache := lite.C32NewCache(clk.now, new(singleflight.Group))
+	const a, b = "10.9.9.9:25565", "10.9.9.8:25565"
+	protoA := 765 + variant
+	ttl := time.Hour
+	// a cached entry for B (its expiry makes getLocked read the clock)
+	cache.Load(b, 47, 0, ttl, func() (*packet.StatusResponse, error) { return &packet.StatusResponse{Status: "b"}, nil })
+	started := make(chan struct{})
+	releaseL := make(chan struct{})
+	loadDone := make(chan string, 1)
+	go func() {
+		res, err := cache.Load(a, protoA, uint64(variant), ttl, func() (*packet.StatusResponse, error) {
+			close(started)
+			<-releaseL
+			if variant%2 == 1 {
+				return nil, errors.New("old")
+			}
+			return &packet.StatusResponse{Status: "old"}, nil
+		})
+		loadDone <- showRes(res, err)
+	}()
+	select {
+	case <-started:
+	case <-time.After(stepTimeout):
+		return "hang"
+	}
+	// park a reader inside the critical section
+	clk.armed.Store(true)
+	holdDone := make(chan struct{})
+	go func() { cache.Get(b, 47, 0); close(holdDone) }()
+	select {
+	case <-clk.entered:
+	case <-time.After(stepTimeout):
+		return "hang"
+	}
+	close(releaseL) // the flight function now queues on c.mu with the old value
+	time.Sleep(8 * time.Millisecond)
+	resetDone := make(chan struct{})
+	go func() { cache.Reset(); close(resetDone) }()
+	time.Sleep(8 * time.Millisecond)
+	close(clk.release)
+	for _, ch := range []chan struct{}{holdDone, resetDone} {
+		select {
+		case <-ch:
+		case <-time.After(stepTimeout):
+			return "hang"
+		}
+	}
+	select {
+	case <-loadDone:
+	case <-time.After(stepTimeout):
+		return "hang"
+	}
+	// reset() has returned: nothing obtained before it may be served
+	out := "miss"
+	if res, err, found := cache.Get(a, protoA, uint64(variant)); found {
+		out = "hit:" + strings.TrimSuffix(strings.TrimSuffix(showRes(res, err), ":1"), ":0")
+	}
+	res, err := cache.Load(a, protoA, uint64(variant), ttl, func() (*packet.StatusResponse, error) {
+		return &packet.StatusResponse{Status: "new"}, nil
+	})
+	return out + " " + strings.TrimSuffix(strings.TrimSuffix(showRes(res, err), ":1"), ":0")
+}
+
+func raceStress(round, n int) string {
+	cache := lite.C32NewCache(time.Now, new(singleflight.Group))
+	var resetCalled atomic.Bool
+	var wg sync.WaitGroup
+	gate := make(chan struct{})
+	for i := 0; i < n; i++ {
+		wg.Add(1)
+		go func(i int) {
+			defer wg.Done()
+			<-gate
+			cache.Load(fmt.Sprintf("s%d", i), 765, 0, time.Hour, func() (*packet.StatusResponse, error) {
+				before := !resetCalled.Load()
+				for k := 0; k < (i*7+round)%5; k++ {
+					runtime.Gosched()
+				}
+				if before {
+					return &packet.StatusResponse{Status: "before"}, nil
+				}
+				return &packet.StatusResponse{Status: "after"}, nil
+			})
+		}(i)
+	}
+	close(gate)
+	for k := 0; k < round%4; k++ {
+		runtime.Gosched()
+	}
+	resetCalled.Store(true)
+	cache.Reset()
+	done := make(chan struct{})
+	go func() { wg.Wait(); close(done) }()
+	select {
+	case <-done:
+	case <-time.After(stepTimeout):
+		return "hang"
+	}
+	stale := 0
+	for i := 0; i < n; i++ {
+		if res, _, found := cache.Get(fmt.Sprintf("s%d", i), 765, 0); found && res != nil && res.Status == "before" {
+			stale++
+		}
+	}
+	return fmt.Sprintf("stale=%d", stale)
+}
+
+func partRace(run *hx.Run) {
+	for r := 0; r < run.Scale(6, 24); r++ {
+		v := r % 4
+		out := hx.Guard(60*time.Second, func() string { return raceHeld(r, v) })
+		run.Case("R:held", fmt.Sprintf("race held %d %d", r, v), out)
+	}
+	for r := 0; r < run.Scale(30, 300); r++ {
+		n := 16 + 16*(r%4)
+		out := hx.Guard(60*time.Second, func() string { return raceStress(r, n) })
+		run.Case("R:stress", fmt.Sprintf("race stress %d %d", r, n), out)
+	}
+}
+
 func main() {
 	run := hx.Start()
+	partRace(run)
 	partA(run)
 	partB(run)
 	run.Finish()
